@@ -8,6 +8,14 @@
 (*   separator and a new block.  Deviation TruncateOnGenerate is the       *)
 (*   pinned code (File::create truncates): it must break KeepsKeys.        *)
 (*                                                                         *)
+(*   F is named by a path; several paths name the same file (PathKinds):   *)
+(*   the plain path, a symbolic link to it, a path through "sub/..", a     *)
+(*   second hard link.  Look (does F exist?) and Open both resolve the     *)
+(*   path; the contract does not depend on which name is used.  Deviation  *)
+(*   LookDoesNotFollowLinks (the existence test uses lstat-like metadata:  *)
+(*   a symbolic link "is not a file", so the create-or-TRUNCATE branch is  *)
+(*   taken, and create follows the link) must break KeepsKeys.             *)
+(*                                                                         *)
 (* Part 2 - one key under change-pass / extract-pub / use (C16).           *)
 (*   Passwords are drawn from a small set; every re-lock draws a fresh     *)
 (*   salt; the private key never changes.  Deviations ReuseSaltOnChange    *)
@@ -19,6 +27,7 @@ CONSTANTS MaxOps, Variant
 
 InitialFiles == {"absent", "empty", "keyring_nl", "keyring_no_nl", "keyring_comments"}
 Passwords == {"p0", "p1", "p2", "p3"}
+PathKinds == {"direct", "symlink", "dotdot", "hardlink"}
 
 VARIABLES mode,      \* "gen" | "life"
           file,      \* gen: [exists, items]
@@ -44,15 +53,20 @@ InitLife == /\ mode = "life" /\ initial = "n/a" /\ file = [exists |-> FALSE, ite
 Init == InitGen \/ InitLife
 
 \* `key generate -o F` (commands.rs:285-326)
-Generate ==
+\* what the existence test answers for a path of kind via
+Looks(via) == IF Variant = "LookDoesNotFollowLinks" /\ via = "symlink" THEN FALSE ELSE file.exists
+GenerateVia(via) ==
   /\ mode = "gen" /\ Len(hist) < MaxOps
+  /\ (via = "hardlink" => file.exists)            \* a second hard link needs a file to link to
   /\ LET block == [k |-> "block", name |-> ngen + 1]
          sep   == [k |-> "sep", name |-> 0]
      IN file' = IF ~file.exists THEN [exists |-> TRUE, items |-> <<block>>]
+                ELSE IF ~Looks(via) THEN [exists |-> TRUE, items |-> <<block>>]        \* create-or-truncate through the path
                 ELSE IF Variant = "TruncateOnGenerate" THEN [exists |-> TRUE, items |-> <<sep, block>>]
                 ELSE [exists |-> TRUE, items |-> file.items \o <<sep, block>>]
-  /\ ngen' = ngen + 1 /\ hist' = Append(hist, "generate")
+  /\ ngen' = ngen + 1 /\ hist' = Append(hist, via)
   /\ UNCHANGED <<mode, initial, sk, pw, pwHist, salt, salts, nextSalt>>
+Generate == \E via \in PathKinds : GenerateVia(via)
 
 ChangePass ==
   /\ mode = "life" /\ Len(hist) < MaxOps
@@ -84,6 +98,6 @@ SaltsFresh   == mode = "life" => Cardinality(salts) = Len(pwHist)
 \* the newest string unlocks exactly under the newest password (symbolic scrypt is injective)
 UnlocksUnder(p) == p = pw
 
-EmitGen  == (mode = "gen" /\ Len(hist) = MaxOps) => PrintT(<<"REPLAY", ToJson([mode |-> "gen", initial |-> initial, n |-> ngen])>>)
+EmitGen  == (mode = "gen" /\ Len(hist) = MaxOps) => PrintT(<<"REPLAY", ToJson([mode |-> "gen", initial |-> initial, n |-> ngen, vias |-> hist])>>)
 EmitLife == (mode = "life" /\ Len(hist) = MaxOps) => PrintT(<<"REPLAY", ToJson([mode |-> "life", first |-> pwHist[1], ops |-> hist])>>)
 =============================================================================
